@@ -1,0 +1,14 @@
+//go:build verif
+
+package gate
+
+import (
+	"github.com/spf13/viper"
+
+	"go.minekube.com/gate/pkg/gate/config"
+)
+
+// VerifLoadLiveConfigCandidate is loadLiveConfigCandidate.
+func VerifLoadLiveConfigCandidate(v *viper.Viper, configPath string) (*config.Config, error) {
+	return loadLiveConfigCandidate(v, configPath)
+}
